@@ -1152,7 +1152,9 @@ impl Stream for Aes {
                     push(&mut g, "read.zip64+aes", "plain", "zip64+aes", &f, cs, Some(&pw));
                     let mut f = with(1, 99, [good.clone(), z64.clone()].concat());
                     f.csize = 0xFFFF_FFFF; f.usize_ = 0xFFFF_FFFF; f.tail_layout = true;
-                    push(&mut g, "read.aes+zip64", "quirk", "aes+zip64", &f, 0xFFFF_FFFF, Some(&pw));
+                    // (K-C repaired: the AES record is consumed exactly, so the ZIP64 record behind it is applied; before,
+                    // the sizes stayed 0xFFFFFFFF and this case was generated with `exp=quirk`, the oracle silent)
+                    push(&mut g, "read.aes+zip64", "plain", "aes+zip64", &f, cs, Some(&pw));
                 }
             }
         }
